@@ -79,6 +79,8 @@ def gen_frame_case(r: random.Random, task: Optional[str] = None) -> Dict[str, An
     if "false_positive" not in pf_labels and r.random() < 0.3:
         pf_labels.append("false_positive")
     pf = {"target_labels": pf_labels, "matching_threshold_list": [round(r.choice([0.05, 0.5, 1.0, 2.0, 5.0, 50.0]) * r.uniform(0.8, 1.2), 3) for _ in pf_labels]}
+    if r.random() < 0.3:
+        pf["confidence_threshold_list"] = [round(r.uniform(0.2, 0.9), 2) for _ in pf_labels]
 
     ego_pos = (r.uniform(-1e4, 1e4), r.uniform(-1e4, 1e4), r.uniform(-3, 3)) if r.random() < 0.5 else (r.uniform(-50, 50), r.uniform(-50, 50), 0.0)
     ego_yaw = O.rand_yaw(r)
@@ -241,6 +243,8 @@ def gen_frame_case_2d(r: random.Random) -> Dict[str, Any]:
     if "false_positive" not in pf_labels and r.random() < 0.3:
         pf_labels.append("false_positive")
     pf = {"target_labels": pf_labels, "matching_threshold_list": [round(r.choice([0.05, 0.3, 0.5, 0.8]), 2) for _ in pf_labels]}
+    if r.random() < 0.3:
+        pf["confidence_threshold_list"] = [round(r.uniform(0.2, 0.9), 2) for _ in pf_labels]
     gts, ests = [], []
     gt_pool = [l for l in target if l != "unknown"] or ["car"]
     for k in range(r.randint(0, 10)):
